@@ -1,4 +1,4 @@
-import ZvbiModel.Search.LemmasCache
+import ZvbiModel.Search.LemmasCacheR
 /-!
 # Specification side of C17 and the full-strength statements that are NOT proved
 
@@ -9,6 +9,10 @@ What is proved (Props/C17.lean) is the same under the explicit exclusion of find
 counter `n_subpages` has not wrapped, fewer than 65536 cached pages per page number) - `walk_complete_cached` - and,
 for `search_exact`, per call instead of per pass (`search_exact_first_call`, `search_exact_not_found`,
 `search_success_sound`).  They are kept here as `def ... : Prop` so that the gap stays visible.
+
+Both are stated per source shape `fix` of `_vbi_cache_put_page` (`buildF fix`, LemmasCacheR.lean): `fix = false` the
+source with finding F17 / C17-D2, `fix = true` with fixes/C10-put-replaces-all-versions.diff.  `walk_complete_full true`
+is PROVED (Props/C17.lean `walk_complete_repaired`: `NoWrap` is a theorem there); `walk_complete_full false` stays open.
 -/
 namespace Zvbi.Search
 
@@ -33,22 +37,23 @@ def runNexts (sh : Shape) (exec : Exec) : Cache → SearchSt → List Int → Li
     any reachable cache: the calls up to the first NOT_FOUND return exactly the matching pages (each at least once:
     one call per occurrence), never a page that does not match, and NOT_FOUND comes after at most one call per
     occurrence. -/
-def search_exact_full : Prop :=
+def search_exact_full (fix : Bool) : Prop :=
   ∀ (sh : Shape) (exec : Exec) (ops : List PutOp) (P S : Int) (s0 : SearchSt) (n : Nat), (∀ o ∈ ops, o.subno ≤ 0x3F7F) →
     PgOk P → searchNew P S 1 = some s0 →
     (∀ f t ms me, exec f t = some (ms, me) → ms < me) →
-    let c := build ops
+    let c := buildF fix ops
     let rs := runNexts sh exec c s0 (List.replicate n 1)
     let pass := rs.takeWhile (fun r => r.1 = .ret SEARCH_SUCCESS)
     (∀ r ∈ pass, Matches exec c r.2.1 r.2.2) ∧
     (pass.length < n → ∀ p s, Matches exec c p s → ∃ r ∈ pass, r.2 = (p, s))
 
-/-- OPEN.  Every cached page is handed to the callback in every sweep, after EVERY history of page stores.  Proved
-    with the additional hypothesis `NoWrap (build ops)` (`walk_complete_cached`); without it the statement fails at
-    65536 cached pages of one page number (C17-D2, 16 bit `n_subpages`). -/
-def walk_complete_full : Prop :=
+/-- OPEN for `fix = false`, PROVED for `fix = true` (`walk_complete_repaired`).  Every cached page is handed to the
+    callback in every sweep, after EVERY history of page stores.  Shape as found: proved with the additional hypothesis
+    `NoWrap (buildF false ops)` (`walk_complete_cached`); without it the statement fails at 65536 cached pages of one
+    page number (C17-D2, 16 bit `n_subpages`). -/
+def walk_complete_full (fix : Bool) : Prop :=
   ∀ (sh : Shape) (ops : List PutOp) (pgno subno dir : Int), (∀ o ∈ ops, o.subno ≤ 0x3F7F) → PgOk pgno → dir = 1 ∨ dir = -1 →
-    ∀ (q : Nat) (e : Entry), PgOk q → e ∈ ((build ops).slots q).chain →
-      ((q : Int), (e.subno : Int), true) ∈ walkPositions sh (build ops) pgno subno dir
+    ∀ (q : Nat) (e : Entry), PgOk q → e ∈ ((buildF fix ops).slots q).chain →
+      ((q : Int), (e.subno : Int), true) ∈ walkPositions sh (buildF fix ops) pgno subno dir
 
 end Zvbi.Search
